@@ -50,6 +50,34 @@ var extra = []c03.Scenario{
 		},
 	},
 	{
+		Name: "T5",
+		Doc:  "v0.3.x replicas restored by the legacy path: a snapshot-only generation (no WAL segment selected), then a snapshot followed by one WAL segment; plain and with a full integrity check",
+		Steps: []c03.Step{
+			{Op: "w", Arg: "small"}, {Op: "w", Arg: "big"}, {Op: "w", Arg: "multi"},
+			{Op: "plantv3", Arg: "v3snap snap"},
+			{Op: "w", Arg: "update"},
+			{Op: "plantv3", Arg: "v3wal wal"},
+			{Op: "startT"},
+			{Op: "v", Arg: "restore out5 rep=v3snap"},
+			{Op: "v", Arg: "restore out6 rep=v3snap ic=full"},
+			{Op: "v", Arg: "restore out7 rep=v3wal"},
+			{Op: "v", Arg: "restore out8 rep=v3wal ic=quick"},
+			{Op: "stop"},
+		},
+	},
+	{
+		Name: "T6",
+		Doc:  "restores while every fsync/fdatasync of the restoring process fails with EIO (strace fault injection): nothing may be published under the output name",
+		Steps: []c03.Step{
+			{Op: "start"}, {Op: "w", Arg: "small"}, {Op: "v", Arg: "sync-wait"}, {Op: "w", Arg: "big"}, {Op: "v", Arg: "sync-wait"}, {Op: "v", Arg: "compact 1"}, {Op: "w", Arg: "update"}, {Op: "v", Arg: "sync-wait"}, {Op: "v", Arg: "close"}, {Op: "stop"},
+			{Op: "inject", Arg: "fsync,fdatasync:error=EIO"},
+			{Op: "startT"},
+			{Op: "v?", Arg: "restore out9"},
+			{Op: "v?", Arg: "restore out10 ic=full"},
+			{Op: "stop"},
+		},
+	},
+	{
 		Name:  "T4",
 		Doc:   "chunked catch-up: MaxSyncWALBytes worth 2 / 1 application transactions (and a single frame), backlogs of 1..5 equal-sized transactions between local-only syncs, so some catch-ups end exactly on the byte budget",
 		Steps: t4Steps(),
@@ -135,7 +163,7 @@ func cases(run *vf.Run) ([]json.RawMessage, error) {
 			}
 		}
 	} else {
-		list = []sc{{"S1", "B"}, {"S2", "A"}, {"S3", "A"}, {"S4", "A"}, {"S5", "A"}, {"S5b", "A"}, {"S7", "A"}, {"T1", "A"}, {"T2", "A"}, {"S3", "B"}, {"S8", "A"}, {"T4", "A"}}
+		list = []sc{{"S1", "B"}, {"S2", "A"}, {"S3", "A"}, {"S4", "A"}, {"S5", "A"}, {"S5b", "A"}, {"S7", "A"}, {"T1", "A"}, {"T2", "A"}, {"S3", "B"}, {"S8", "A"}, {"T4", "A"}, {"T5", "A"}, {"T6", "A"}}
 	}
 	var out []json.RawMessage
 	for _, s := range list {
@@ -179,7 +207,12 @@ func runCase(run *vf.Run, raw json.RawMessage, dir string) *vf.Result {
 	w.LaunchFor = func(phase int, traced bool) c03.Launch {
 		p := filepath.Join(dir, fmt.Sprintf("strace-%d.log", phase))
 		logs = append(logs, p)
-		return c03.Launch{Mode: c03.Strace, Log: p}
+		l := c03.Launch{Mode: c03.Strace, Log: p}
+		if traced && w.Inject != "" {
+			l.Inject, w.Inject = w.Inject, ""
+			res.Count("victim_phases_with_injected_syscall_faults", 1)
+		}
+		return l
 	}
 	at, err := w.Run(sc.Steps, 0)
 	oe, isOracle := err.(*c03.OracleError)
